@@ -3,10 +3,19 @@ import NurbsVerif.Model.BasisDersOne
 import NurbsVerif.Model.Eval
 import NurbsVerif.Model.Grid
 import NurbsVerif.Model.BasisDers
+import NurbsVerif.Model.Length
 import NurbsVerif.Driver.Parse
 /- handlers for span / basis / knot vector / evaluation / derivative ops (C01, C02, C03, C17, C18) -/
 namespace Drv
 open Geomdl
+
+/-- distance function given by a table: the harness passes the values `linalg.point_distance` returned
+    for the consecutive pairs of `evalpts` (square roots: doubles, as exact rationals); the model of
+    `length_curve` looks each pair up (first match) and sums -/
+def tableDist (tbl : List ((List Rat × List Rat) × Rat)) (a b : List Rat) : Rat :=
+  match tbl.find? (fun e => e.1.1 == a && e.1.2 == b) with
+  | some e => e.2
+  | none => -1
 
 def sortedR (l : List Rat) : Bool := isSortedB l
 
@@ -112,6 +121,16 @@ def handleBasic : List String → Option String
       let n := sampleSize dl
       let ks := linspace (fn U p) (fn U P.length) n tolMult
       return showPts (curveGrid (rat == "1") p (fn U) P ks)
+  | ["clen", rat, p, us, ps, delta, evs, ds] => do
+      let p ← p.toNat?; let U ← parseList us; let P ← parsePts ps; let dl ← parseRat delta
+      let E ← parsePts evs; let D ← parseList ds
+      if !(okKv p P.length U) || dl ≤ 0 then return "ERR"
+      let ks := linspace (fn U p) (fn U P.length) (sampleSize dl) tolMult
+      let pts := curveGrid (rat == "1") p (fn U) P ks
+      if pts != E then return "GRID"
+      if D.length + 1 != pts.length then return "DISTS"
+      let tbl := (pts.zip (pts.drop 1)).zip D
+      return showRat (curveLength (tableDist tbl) (rat == "1") p (fn U) P ks)
   | ["sgrid", rat, pu, pv, uus, uvs, su, sv, ps, du, dv] => do
       let pu ← pu.toNat?; let pv ← pv.toNat?; let Uu ← parseList uus; let Uv ← parseList uvs
       let su ← su.toNat?; let sv ← sv.toNat?; let P ← parsePts ps; let du ← parseRat du; let dv ← parseRat dv
